@@ -649,7 +649,18 @@ func hangSite(stderr string) string {
 	sort.Strings(blocked)
 	sort.Strings(realBlocked)
 	if len(running) > 0 {
-		return "spin@" + strings.Join(running, ",")
+		// Which goroutines of a livelock happen to be on a processor at the instant of the dump is
+		// real-time chance (two goroutines handing items to each other are seen as one, the other
+		// or both). Every library goroutine that is still there names the spin the same way each time.
+		all := append(append([]string{}, running...), blocked...)
+		sort.Strings(all)
+		uniq := all[:0]
+		for i, x := range all {
+			if i == 0 || x != all[i-1] {
+				uniq = append(uniq, x)
+			}
+		}
+		return "spin@" + strings.Join(uniq, ",")
 	}
 	if underScheduler && len(realBlocked) > 0 {
 		// Under the baton scheduler exactly one worker runs. If that one blocks in a primitive the
